@@ -27,7 +27,8 @@ RULE = ("world = well-formed changelog from a small grammar (1..4 blocks); strea
         "urgency / author / date) with well-formed values; an evaluation is one run (lenient "
         "parse, strict parse, edits, format, re-parse, re-format); distinct = distinct "
         "(fault kinds, delivery, warnings, edit ops) hash; non-trivial = at least one stream "
-        "fault or one edit was applied")
+        "fault or one edit was applied"
+        '; later additions: block-level edits through c[i] and retained handles, str() in the middle of a history, None assigned to author / date, distributions separated by several blanks or tabs, several further header pairs under varying names, white space after the time zone, formatter metacharacters in junk and change lines; the lenient parse is done twice per run')
 REAL = ["debian.changelog.Changelog / ChangeBlock (parse_changelog, _parse_error, _format, "
         "new_block, add_change, attribute setters)", "debian.debian_support.Version", "warnings"]
 STUB = ["the line stream handed to the parser (simulator-owned list / iterator / file object)"]
